@@ -1,7 +1,7 @@
 """C15 — fit-into-destination crop (clauses)."""
 from ..engines import formulas
 from ..progs import programs
-from ..sym import Sym, fmt
+from ..sym import Sym, fmt, atoms
 
 
 def _has(e, pred):
@@ -494,6 +494,48 @@ def origin_strict(rep, prog, rule):
     rep.floor(rule, "fitted origins", n, 2)
 
 
+def centering_stored(rep, prog, rule):
+    rep.rule(rule, "ResizeOptions::fit_into_destination stores the caller's centering as it is (the default "
+             "(0.5, 0.5) for None): the payload of SrcCropping::FitIntoDestination is `centering.unwrap_or("
+             "default)` and nothing else. The clamp of each component to [0, 1] belongs to "
+             "fit_src_into_dst_size (C15.clamp); a builder that filters, replaces or pre-clamps the pair "
+             "(`centering.filter(|(x, y)| in_range(x) && in_range(y))`) turns an out-of-range request "
+             "such as (1.5, 0.5) into centre cropping instead of cropping at the border")
+    fs = [f for f in prog.fns.values() if f.name.rsplit("::", 1)[-1] == "fit_into_destination" and f.kind != "closure"]
+    if len(fs) != 1:
+        rep.unk(rule, "anchor", "", "%d functions named fit_into_destination" % len(fs))
+        return
+    f = fs[0]
+    rep.touch(f)
+    sym = Sym(f)
+    found = False
+    for b, blk in enumerate(f.blocks):
+        if blk["c"]:
+            continue
+        for j, st in enumerate(blk["s"]):
+            if not (st[0] == "a" and st[2][0] == "agg" and st[2][1] == "adt"
+                    and str(st[2][2]).rsplit("::", 1)[-1] == "SrcCropping" and st[2][4]):
+                continue
+            found = True
+            e = sym.operand(st[2][4][0], (b, j))
+            while isinstance(e, tuple) and e and e[0] in ("copy", "ref", "deref"):
+                e = e[1]
+            key = "fit_into_destination|payload"
+            ok_ = (isinstance(e, tuple) and e and e[0] == "call" and e[1] in ("unwrap_or", "unwrap_or_else", "unwrap_or_default")
+                   and e[2] and e[2][0][0] == "param")
+            direct = isinstance(e, tuple) and e and e[0] == "param"
+            if ok_ or direct:
+                rep.ok(rule, key, st[3], "stores %s" % fmt(e)[:70])
+            elif "centering" in fmt(e) or any(a[0] == "param" for a in atoms(e)):
+                rep.bad(rule, key + "|altered", st[3],
+                        "fit_into_destination stores %s: the caller's centering is filtered / changed before "
+                        "fit_src_into_dst_size sees it" % fmt(e)[:120])
+            else:
+                rep.unk(rule, key, st[3], "stored centering %s" % fmt(e)[:100])
+    if not found:
+        rep.unk(rule, "fit_into_destination|payload", f.loc, "no SrcCropping value is built here")
+
+
 def run(rep, tier):
     cfgs = ["x86"] if tier == "quick" else ["x86", "arm", "wasm"]
     for cfg, prog in programs(cfgs):
@@ -509,6 +551,7 @@ def run(rep, tier):
         from ..engines import validators
         rep.call(validators.crop_f64, rep, prog, "C15.validator-form")
         rep.call(validators.crop_route, rep, prog, "C15.crop-route")
+        rep.call(centering_stored, rep, prog, "C15.centering-stored")
         # integer arithmetic on the way to the fitted box must not wrap (a wrapped product in a
         # ratio test selects the wrong box in release builds and panics in debug builds)
         from . import c03
